@@ -32,6 +32,15 @@ pub struct GenEntry {
     split: AllowSplitEntries,
     entry_dims: Vec<EntryDimensions>,
     huge: String,
+    /// (metric name, value of its one dimension) of the `many_metrics` item
+    wide: Vec<(String, String)>,
+}
+
+struct WideMetric<'a>(&'a str, u64);
+impl Value for WideMetric<'_> {
+    fn write(&self, writer: impl ValueWriter) {
+        writer.metric([Observation::Unsigned(self.1)], Unit::Count, [("shard", self.0)], MetricFlags::empty());
+    }
 }
 
 impl GenEntry {
@@ -48,7 +57,8 @@ impl GenEntry {
             }
         }
         let huge_len = items.iter().filter(|i| js(i, "k", "") == "huge").map(|i| ju(i, "len", 0)).max().unwrap_or(0);
-        GenEntry { items, split: AllowSplitEntries::new(), entry_dims, huge: "h".repeat(huge_len as usize) }
+        let wide = items.iter().filter(|i| js(i, "k", "") == "many_metrics").map(|i| (ju(i, "n", 0), ju(i, "tag", 0))).next().map(|(n, tag)| (0..n).map(|i| (format!("W{i}"), format!("w{tag}x{i}"))).collect()).unwrap_or_default();
+        GenEntry { items, split: AllowSplitEntries::new(), entry_dims, huge: "h".repeat(huge_len as usize), wide }
     }
 }
 
@@ -136,6 +146,14 @@ impl Entry for GenEntry {
                     }
                 }
                 "split" => w.config(&self.split),
+                // {"k":"many_metrics","n":N,"tag":t}: N metrics, each under a dimension set of its own (with "split": N records)
+                "many_metrics" => {
+                    for i in 0..ju(it, "n", 0) as usize {
+                        if let Some((name, dim)) = self.wide.get(i) {
+                            w.value(name.as_str(), &WideMetric(dim.as_str(), i as u64));
+                        }
+                    }
+                }
                 "entry_dims" => {
                     if let Some(d) = self.entry_dims.get(ed) {
                         w.config(d);
@@ -1685,6 +1703,16 @@ impl Scenario for EmfHistory {
             }
             calls.insert(at, second);
             calls.insert(at, first);
+        }
+        // one history in 700: a split entry with 3 000 - 7 000 per-metric dimension sets, and later one with 1 030 - 1 600
+        // (the formatter's tables have grown by then; the narrower entry must come out as from a fresh formatter)
+        let wd = r2.next_u64();
+        if wd % 700 == 0 {
+            let mk = |n: u64, tag: u64| json!({"entry": {"items": [{"k":"ts","ms": 1_700_000_000_000u64 + tag}, {"k":"split"}, {"k":"many_metrics","n": n, "tag": tag}]}, "fault": J::Null, "sample": J::Null, "clone_first": false});
+            let at = ((wd / 700) as usize) % (calls.len() + 1);
+            calls.insert(at, mk(3_000 + (wd / 7) % 4_000, 1));
+            let at2 = at + 1 + ((wd / 11) as usize) % (calls.len() - at);
+            calls.insert(at2, mk(1_030 + (wd / 13) % 570, 2));
         }
         // one history in 1 500 starts on a formatter that has already formatted 5 000 - 12 000 entries
         let pre = r2.next_u64();
